@@ -66,6 +66,8 @@ CONSTANTS = {
         ("SHAPE_STRUCT_ENCODE", "arrow-row/src/lib.rs", r"false => \(\*null, null_sentinel\),\s*\};\s*let end_offset = \*offset \+ (1) \+ row\.as_ref\(\)\.len\(\);\s*data\[\*offset\] = sentinel;\s*data\[\*offset \+ 1\.\.end_offset\]\.copy_from_slice\(row\.as_ref\(\)\);", "int"),
         ("SHAPE_REE_ENCODE", "arrow-row/src/run.rs", r"let bytes_written = variable::encode_one\(out, Some\(rows\.row\(physical_idx\)\.data\), opts\);\s*offsets\[offset_idx\] \+= bytes_written;(?:\s*//[^\n]*\n)*\s*for i in (1)\.\.iteration_count \{", "int"),
         ("SHAPE_ROWS_PUSH", "arrow-row/src/lib.rs", r"pub fn push\(&mut self, row: Row<'_>\) \{.*?self\.buffer\.extend_from_slice\(row\.data\);\s*self\.offsets\.push\(self\.buffer\.len\(\)\)\s*\}.*?self\.offsets\.truncate\((1)\);\s*self\.buffer\.clear\(\);", "int"),
+        ("SHAPE_UNION_ENCODE", "arrow-row/src/lib.rs", r"data\[\*offset\] = type_id_byte;\s*let child_start = \*offset \+ (1);\s*let child_end = child_start \+ child_bytes\.len\(\);\s*data\[child_start\.\.child_end\]\.copy_from_slice\(child_bytes\);\s*if opts\.descending \{(?:\s*//[^\n]*\n)*\s*data\[child_start\.\.child_end\]\s*\.iter_mut\(\)\s*\.for_each\(\|v\| \*v = !\*v\);\s*\}\s*\*offset = child_end;", "int"),
+        ("SHAPE_FROM_BINARY", "arrow-row/src/lib.rs", r"let mut buffer = values\.into_vec\(\)\.unwrap_or_else\(\|values\| values\.to_vec\(\)\);(?:\s*//[^\n]*\n)*\s*buffer\.truncate\(offsets\[offsets\.len\(\) - (1)\]\);", "int"),
         # the signed macro itself: `to_be_bytes` then the sign-bit toggle, for exactly these widths
         ("SIGNED_WIDTHS", "arrow-row/src/fixed.rs", r"encode_signed!\((1), i8\);\s*encode_signed!\(2, i16\);\s*encode_signed!\(4, i32\);\s*encode_signed!\(8, i64\);\s*encode_signed!\(16, i128\);\s*encode_signed!\(32, i256\);", "int"),
     ],
